@@ -224,6 +224,75 @@ def check_scenarios(ctx, scs):
     return traces
 
 
+# ------------------------------------------------------------------ extension: the real clients obey the ClientBase contract
+def _f(x):
+    return 3 * x + 1
+
+
+def record_client(sc):
+    """Random call sequences on a real client object (native / multiprocessing); ClientContract_Trace judges them."""
+    import elfi.clients.multiprocessing as mp
+    import elfi.clients.native as native
+    rnd = random.Random(sc["seed"])
+    cl = native.Client() if sc["client"] == "native" else mp.Client(num_processes=2)
+    events, held = [], []
+    try:
+        for _ in range(sc["n"]):
+            ch = ["apply", "apply", "sync"] + (["ready", "get", "rm", "ready"] if held else [])
+            op = rnd.choice(ch)
+            e = dict(ev=op, id=-1, x=0, val=0, ans=False, n=0, raised="")
+            try:
+                with time_limit(60):
+                    if op == "apply":
+                        e["x"] = rnd.randint(0, 50)
+                        e["id"] = int(cl.apply(_f, e["x"]))
+                        held.append(e["id"])
+                    elif op == "sync":
+                        e["x"] = rnd.randint(0, 50)
+                        e["val"] = int(cl.apply_sync(_f, e["x"]))
+                    elif op == "ready":
+                        e["id"] = rnd.choice(held)
+                        e["ans"] = bool(cl.is_ready(e["id"]))
+                    elif op == "get":
+                        e["id"] = held.pop(rnd.randrange(len(held)))
+                        e["val"] = int(cl.get_result(e["id"]))
+                    elif op == "rm":
+                        e["id"] = held.pop(rnd.randrange(len(held)))
+                        cl.remove_task(e["id"])
+            except Exception as ex:
+                e["raised"] = type(ex).__name__
+            events.append(e)
+            events.append(dict(ev="left", id=-1, x=0, val=0, ans=False, n=len(cl.tasks), raised=""))
+    finally:
+        try:
+            cl.reset()
+        except Exception:
+            pass
+    return dict(events=events)
+
+
+def check_clients(ctx):
+    ctx.tlc("ClientContract", "MC_ClientContract", cfg_text="""SPECIFICATION Spec
+CONSTANTS
+  Args = {1, 2}
+  MaxOps = 5
+INVARIANT FreshIds
+INVARIANT EachResultOnce
+INVARIANT NoResultForHeld
+CHECK_DEADLOCK FALSE
+""", expect_actions=["Next"], timeout=600, label="ClientContract (extension)")
+    rnd = random.Random(ctx.seed + 9)
+    scs = [dict(client="native", seed=rnd.randint(0, 10 ** 6), n=rnd.randint(5, 25)) for _ in range(40 if ctx.quick else 400)]
+    scs += [dict(client="multiprocessing", seed=rnd.randint(0, 10 ** 6), n=rnd.randint(5, 20)) for _ in range(3 if ctx.quick else 20)]
+    traces = [record_client(sc) for sc in scs]
+    verdicts = ctx.validate("ClientContract_Trace", traces, chunk=200, name="clients")
+    for sc, tr, v in zip(scs, traces, verdicts):
+        ctx.case(("client", sc["client"], sc["seed"], sc["n"]), nontrivial=sc["n"] >= 8)
+        if v["verdict"] != "ok":
+            # extension beyond the statement of C04 (the statement quantifies over what a client MAY exhibit): drift only
+            ctx.drifted(v["verdict"], sc, detail=tr["events"][max(0, v["l"] - 2)])
+
+
 def run(ctx):
     ctx.rule = ("real Rejection (threshold | quantile | n_sim) and SMC (threshold lists | quantile lists) runs on id-valued models "
                 "through a scheduled client: every is_ready answer script of length L for max_parallel_batches in {2,3}, plus seeded "
@@ -246,6 +315,7 @@ def run(ctx):
             ctx.tlc("MC_Batches", "SIM_Batches_mp%d_r%d_k%d" % (mp, r, k), cfg_text=mc_cfg(mp, r, smc, k, live=False),
                     simulate="num=%d" % num, depth=120, seed=ctx.seed + 1, workers=8, coverage=False, timeout=900,
                     label="simulate Batches MaxPar=%d rounds=%d K=%d" % (mp, r, k))
+    check_clients(ctx)
     scs = scenarios(ctx)
     traces = check_scenarios(ctx, scs)
     for i in (0, len(traces) // 2, len(traces) - 1):
